@@ -117,6 +117,13 @@ def c02(chk):
         tokens(chk, "ops", 5, rel, ["wf_len3"], workers=16)
         tokens(chk, "core", 6, rel, ["wf_len3"], workers=16, timeout=3000)
         tokens(chk, "assign", 5, rel, ["wf_len3"], workers=16)
+    # source texts in which a sign is glued to a word (-w, +w, -w^2, w-w, ...): which pieces are operators and how they nest
+    # (class WFU: for a decimal word beyond i64 only the SHAPE of the tree is claimed)
+    wl = 3 if chk.tier == "quick" else 5
+    prims = vf.make_prims("lexwords", chk.outdir, extra={"words": lex_word_candidates(wl)})
+    info, summ = vf.run_model(f"lex_words{wl}", "MC_Lex.tla", {"Family": "words", "MaxLen": wl}, chk.outdir,
+                              workers=12 if chk.tier == "quick" else 16, env_extra={"PRIMS": prims}, timeout=3000)
+    chk.add_model(info, summ, {"wfu_shape", "panic"}, ["wfu"], note=f"MC_Lex.tla words up to length {wl} x 12 embeddings: tree shapes")
     traces(chk, "programs", "trace_programs",
            note="random ASTs to depth 5 rendered with required + random redundant parentheses; the specification re-parses the "
                 "recorded source and the recorded tree must equal its tree")
@@ -375,7 +382,7 @@ def c06(chk):
     prims = vf.make_prims("lexwords", chk.outdir, extra={"words": lex_word_candidates(wl)})
     info, summ = vf.run_model(f"lex_words{wl}", "MC_Lex.tla", {"Family": "words", "MaxLen": wl}, chk.outdir,
                               workers=12 if chk.tier == "quick" else 16, env_extra={"PRIMS": prims}, timeout=3000)
-    chk.add_model(info, summ, {"literal", "panic"}, ["wf"], note=f"MC_Lex.tla words up to length {wl} x 7 embeddings")
+    chk.add_model(info, summ, {"literal", "wfu_shape", "panic"}, ["wf"], note=f"MC_Lex.tla words up to length {wl} x 12 embeddings")
     info, summ = vf.run_model(f"lex_strings{sl}", "MC_Lex.tla", {"Family": "strings", "MaxLen": sl}, chk.outdir,
                               workers=12 if chk.tier == "quick" else 16, timeout=3000)
     chk.add_model(info, summ, {"literal", "panic"}, ["wf"], note=f"MC_Lex.tla string bodies up to length {sl} x 3 quotings")
